@@ -488,6 +488,7 @@ func (pc *ProviderCache) fetchMissing(ctx context.Context, pid peer.ID) (*readPr
 		updateSeq: seq,
 	}
 
+	var failed bool
 	for _, src := range pc.sources {
 		fetchedInfo, err := src.Fetch(ctx, pid)
 		if err != nil {
@@ -502,9 +503,17 @@ func (pc *ProviderCache) fetchMissing(ctx context.Context, pid peer.ID) (*readPr
 			if ctx.Err() != nil {
 				return nil, ctx.Err()
 			}
+			failed = true
 			continue
 		}
 		if fetchedInfo == nil {
+			continue
+		}
+		if fetchedInfo.AddrInfo.ID != pid {
+			// A record for another provider (or for none) is not
+			// information about this one.
+			log.Errorw("Source returned a record for another provider", "requested", pid, "returned", fetchedInfo.AddrInfo.ID, "source", src)
+			failed = true
 			continue
 		}
 		lastUpdate, _ := time.Parse(time.RFC3339, fetchedInfo.LastAdvertisementTime)
@@ -520,6 +529,12 @@ func (pc *ProviderCache) fetchMissing(ctx context.Context, pid peer.ID) (*readPr
 		cinfo.provider = fetchedInfo
 	}
 	if cinfo.provider == nil {
+		if failed {
+			// Not every source could say whether it knows the provider:
+			// the provider is not known to be absent, and the next lookup
+			// asks again.
+			return nil, nil
+		}
 		// No provider info, cache negative entry.
 		cinfo.expiresAt = time.Now().Add(pc.ttl)
 		log.Infow("Provider info not found at any source", "provider", pid)
